@@ -96,7 +96,11 @@ class Scenario:
     def run_op(self):
         """The operation under test; returns (optype, ret, expRet, targets)."""
         from neuroglancer_scripts import precomputed_io as pio
+        self.last_acc = None
+        self.accepted = []
+        self.targets = []
         acc = self.accessor(self.base)
+        self.last_acc = acc
         op = self.opname
         if op in ("store_new", "store_overwrite"):
             w = pio.get_IO_for_existing_dataset(acc)
@@ -110,8 +114,10 @@ class Scenario:
                 a = arr(300 + i, self.dtype)
                 old = self.expected.get(("s2", c))
                 self.targets.append((("s2", c), a, old))
+            self.accepted = []
             for (k, c), a, old in self.targets:
                 w.write_chunk(a, k, c)
+                self.accepted.append((k, c))
             if self.kind == "sharded":
                 acc.close()
             return "store", None, None
@@ -192,6 +198,21 @@ def run_once(workdir, scen, plan):
             except Exception as e:
                 outcome.update(st="raised", cls=type(e).__name__, osErr=isinstance(e, OSError),
                                dataAccess=isinstance(e, DataAccessError))
+            retry = ""
+            if (outcome["st"] == "raised" and scen.kind == "sharded" and scen.opname.startswith("store")
+                    and getattr(scen, "last_acc", None) is not None):
+                # the accessor registered close() with atexit: the interpreter will call it
+                # again at exit (and callers may retry). A close() that RETURNS claims success.
+                try:
+                    scen.last_acc.close()
+                    retry = "returned"
+                    outcome = {"st": "returned", "cls": "", "osErr": False, "dataAccess": False}
+                    # the claim of a returning close() covers the chunks whose
+                    # store call had returned normally
+                    acc_ok = set(getattr(scen, "accepted", []))
+                    scen.targets = [t for t in getattr(scen, "targets", []) if t[0] in acc_ok]
+                except Exception as e2:
+                    retry = "raised:" + type(e2).__name__
             if outcome["st"] != "returned":
                 optype = {"store_new": "store", "store_overwrite": "store", "store_info": "exists",
                           "fetch": "fetch", "fetch_info": "fetch", "exists": "exists"}[scen.opname]
@@ -201,7 +222,7 @@ def run_once(workdir, scen, plan):
                 "ret": {"has": ret is not None, "data": ret or []}, "expRet": exp_ret or [],
                 "targets": [{k: t[k] for k in ("st", "data", "new", "hasold", "old")} for t in targets],
                 "others": [{k: o[k] for k in ("st", "data", "exp")} for o in others]}
-        meta = {"scenario": scen.name, "plan": plan, "calls": ip.calls, "exc": outcome["cls"],
+        meta = {"scenario": scen.name, "plan": plan, "calls": ip.calls, "exc": outcome["cls"], "retry_close": retry,
                 "target_read": [t["cls"] or t["st"] for t in targets]}
         return case, meta
     finally:
